@@ -729,3 +729,54 @@ Example merged_partial_premises_satisfiable :
              (FList [bs "% Invalid"%string]) false 2 0 [bs "a"%string; bs "b"%string]) = Ok r /\ r_failed r = true /\
             r_result r = bs "ok"%string ++ [10] ++ bs "% Invalid input"%string.
 Proof. eexists. repeat split. Qed.
+
+(* ------------------------------------------------------------------------------------------ *)
+(* levels that are no configuration session (the user's own privilege levels: a shell, ...)     *)
+(* under a GUARDED abort shape (NX-OS / EOS): a failed stop_on_failed run writes the navigation *)
+(* and lines 0..k and NOTHING else, and the believed level stays the level of the run           *)
+(* ------------------------------------------------------------------------------------------ *)
+Theorem failed_run_outside_session : forall dev d cur f eager priv lvl ls k l,
+  let f' := net_fwc (d_markers d) f in
+  a_guard (d_abort d) = true -> is_session d lvl = false ->
+  keeps_session (d_abort d) = true -> has_level d lvl = true ->
+  resolve_level d priv = Ok lvl ->
+  nth_error ls k = Some l ->
+  (forall j l', (j < k)%nat -> nth_error ls j = Some l' -> spec_fails dev f' eager (length ls) j l' = false) ->
+  spec_fails dev f' eager (length ls) k l = true ->
+  send_configs dev v_now d cur f true eager priv ls =
+    (nav cur lvl ++ lines_events (firstn (S k) ls),
+     Ok (spec_resps dev f' eager (length ls) 0 (firstn (S k) ls)),
+     lvl).
+Proof.
+  intros dev d cur f eager priv lvl ls k l f' Hg Hs Hks Hl Hr Hk Hlt Hf.
+  rewrite (send_configs_failed_run dev d cur f eager priv lvl ls k l Hks Hl Hr Hk Hlt Hf).
+  unfold abort_lines, abort_after. rewrite Hg, Hs. cbn [negb andb].
+  unfold lines_events at 2. cbn [flat_map]. rewrite app_nil_r. reflexivity.
+Qed.
+
+(* a driver constructed with extra levels of the user's (name, "pattern contains config\-s") *)
+Definition with_levels (d : drv) (extra : list (bytes * bool)) : drv :=
+  mkD (d_abort d) (d_levels d ++ extra) (d_default_priv d) (d_markers d).
+
+(* an unguarded shape (IOS-XR, Junos) types its abort lines at ANY level, the user's included *)
+Lemma unguarded_abort_lines : forall d lvl, a_guard (d_abort d) = false -> abort_lines d lvl = a_lines (d_abort d).
+Proof. intros d lvl H. unfold abort_lines. rewrite H. reflexivity. Qed.
+
+Definition d_guarded : drv :=
+  mkD (mkA true [bs "abort"%string] false false (Some (bs "privilege_exec"%string)))
+      [(bs "privilege_exec"%string, false); (lv_configuration, false); (bs "sess1"%string, true)]
+      (bs "privilege_exec"%string) [bs "% Invalid"%string].
+
+Example failed_run_outside_session_premises_satisfiable :
+  let d := with_levels d_guarded [(bs "bash"%string, false)] in
+  let dev := fun (i : nat) (_ : bytes) => if Nat.eqb i 1 then bs "% Invalid input"%string else [] in
+  let ls := [bs "ls /mnt"%string; bs "cat /nope"%string; bs "never"%string] in
+  a_guard (d_abort d) = true /\ is_session d (bs "bash"%string) = false /\ is_session d (bs "sess1"%string) = true /\
+  keeps_session (d_abort d) = true /\ has_level d (bs "bash"%string) = true /\
+  spec_fails dev (net_fwc (d_markers d) FNone) false 3 1 (bs "cat /nope"%string) = true /\
+  send_configs dev v_now d (bs "privilege_exec"%string) FNone true false (bs "bash"%string) ls =
+    ([ENav (bs "bash"%string); EW (bs "ls /mnt"%string); EW RET; EW (bs "cat /nope"%string); EW RET],
+     Ok (spec_resps dev (net_fwc (d_markers d) FNone) false 3 0 (firstn 2 ls)), bs "bash"%string) /\
+  fst (fst (send_configs dev v_now d (bs "privilege_exec"%string) FNone true false (bs "sess1"%string) ls)) =
+    [ENav (bs "sess1"%string); EW (bs "ls /mnt"%string); EW RET; EW (bs "cat /nope"%string); EW RET; EW (bs "abort"%string); EW RET].
+Proof. repeat split; vm_compute; reflexivity. Qed.
